@@ -3,8 +3,9 @@
 # did not stay silent (VIOLATION = rc 1, CHECK-ERROR = rc 2), undo the change. Authoring helper, never part of a registered check.
 set -u
 P=$1
-trap 'git -C /repo reset -q; git -C /repo checkout -- . 2>/dev/null; git -C /repo clean -fdq -- src 2>/dev/null' EXIT PIPE INT TERM
-cd /repo || exit 2
+trap 'git -C $REPO reset -q; git -C $REPO checkout -- . 2>/dev/null; git -C $REPO clean -fdq -- src 2>/dev/null' EXIT PIPE INT TERM
+REPO=${FL_REPO:-/repo}; export FL_REPO=$REPO
+cd $REPO || exit 2
 if ! git diff --quiet; then echo "repo dirty"; exit 2; fi
 if ! git apply "$P"; then echo "patch does not apply"; exit 3; fi
 cd /verif
